@@ -11,6 +11,8 @@
 // shared subset) as the calibration run.
 #include "common.hpp"
 
+#include <csetjmp>
+#include <csignal>
 #include <functional>
 #include <initializer_list>
 #include <set>
@@ -93,6 +95,38 @@ using vh::json;
 using vh::Tracked;
 
 namespace {
+
+// A call through a wrapper whose storage was never initialised may jump through a wild pointer.  Such a call is made
+// under a guard: the fault is turned into an observation ("the call crashed") instead of killing the whole run.
+sigjmp_buf g_jb;
+volatile std::sig_atomic_t g_guarded = 0;
+extern "C" void on_fault(int sig)
+{
+    if (g_guarded) { siglongjmp(g_jb, 1); }
+    std::signal(sig, SIG_DFL);
+    std::raise(sig);
+}
+template <typename F>
+bool guarded(F&& f)
+{
+    g_guarded = 1;
+    if (sigsetjmp(g_jb, 1) == 0) {
+        f();
+        g_guarded = 0;
+        return true;
+    }
+    g_guarded = 0;
+    return false;
+}
+void install_fault_handlers()
+{
+    struct sigaction sa { };
+    sa.sa_handler = on_fault;
+    sa.sa_flags   = SA_NODEFER;
+    sigemptyset(&sa.sa_mask);
+    for (int sg : {SIGSEGV, SIGBUS, SIGILL, SIGFPE}) { sigaction(sg, &sa, nullptr); }
+}
+constexpr unsigned char POISON = 0xA5; // storage handed to a constructor never holds a stale (plausible) capture
 
 // ---- target-call log ------------------------------------------------------------------------------
 struct CallLog {
@@ -307,7 +341,24 @@ struct S {
         return r;
     }
 };
+// copy / move observing argument type for by-value parameters: `how` tells how the PARAMETER object was initialised
+struct CM {
+    int v;
+    int how;
+    explicit CM(int x) : v(x), how(0) { }
+    CM(CM const& o) : v(o.v), how(1) { }
+    CM(CM&& o) noexcept : v(o.v), how(3) { o.v = -1; }
+};
+struct SV : S {
+    int mt(CM a)
+    {
+        int r = res(12, v, {a.v});
+        rec(12, v, 1, {a.v}, {a.how}, r);
+        return r;
+    }
+};
 struct D : S { };
+struct DV : SV { };
 
 // constructed by make_from_tuple: the constructor logs what it was given
 struct RecCtor {
@@ -415,14 +466,19 @@ struct IpfRunner {
             CallLog saved = std::move(g_log);
             g_log         = CallLog{true, json::array()};
             int h0        = g_handler;
-            try {
-                (void)w(0);
-            } catch (...) {
+            bool alive    = guarded([&] {
+                try {
+                    (void)w(0);
+                } catch (...) {
 #ifdef VH_STD
-                ++g_handler;
+                    ++g_handler;
 #endif
-            }
-            if (g_log.calls.size() == 1) {
+                }
+            });
+            if (!alive) {
+                t = -2; // the call faulted (wild jump): the wrapper holds no callable target
+                c = 0;
+            } else if (g_log.calls.size() == 1) {
                 t = g_log.calls[0]["t"].get<int>();
                 c = g_log.calls[0]["c"].get<int>();
             } else {
@@ -551,14 +607,17 @@ struct IpfRunner {
             swap(v, src);
         } else if (op == "call") {
             Guard g(*this);
-            try {
-                int r = std::as_const(v)(xa);
-                ret.push_back(r);
-            } catch (...) {
+            bool alive = guarded([&] {
+                try {
+                    int r = std::as_const(v)(xa);
+                    ret.push_back(r);
+                } catch (...) {
 #ifdef VH_STD
-                ++g_handler; // std::function reports the empty call by throwing bad_function_call
+                    ++g_handler; // std::function reports the empty call by throwing bad_function_call
 #endif
-            }
+                }
+            });
+            if (!alive) { ret.push_back(-2); }
         } else {
             ok = false;
         }
@@ -613,9 +672,11 @@ struct IpfRunner {
     {
         for (int i = 0; i < 2; ++i) {
             ob[i]->~W();
+            std::memset(store[i], POISON, sizeof(W));
             ob[i] = new (store[i]) W();
         }
         h->~WS();
+        std::memset(store_h, POISON, sizeof(WS));
         h = new (store_h) WS();
     }
     void replay(std::vector<json> const& script)
@@ -678,6 +739,19 @@ bool run_form(std::string const& form, json const& x, json& ret)
     } else if (form == "inv_memfn_robj") {
         S s{c};
         ret.push_back(lib::invoke(&S::mf, std::move(s), a));
+    } else if (form.rfind("inv_mv_", 0) == 0) {
+        // member function taking a class type BY VALUE, through object / pointer / reference_wrapper (to a derived object),
+        // lvalue and rvalue argument: the parameter must be copy- resp. move-constructed exactly as by a direct call
+        DV s;
+        s.v = c;
+        CM arg(a);
+        bool rv = form.back() == 'r';
+        std::string via = form.substr(7, form.size() - 9);
+        if (via == "obj") { ret.push_back(rv ? lib::invoke(&SV::mt, s, std::move(arg)) : lib::invoke(&SV::mt, s, arg)); }
+        else if (via == "ptr") { ret.push_back(rv ? lib::invoke(&SV::mt, &s, std::move(arg)) : lib::invoke(&SV::mt, &s, arg)); }
+        else if (via == "refw") { ret.push_back(rv ? lib::invoke(&SV::mt, lib::ref(s), std::move(arg)) : lib::invoke(&SV::mt, lib::ref(s), arg)); }
+        else { ok = false; }
+        ret.push_back(arg.v); // the caller's argument afterwards: moved-from (-1) iff it was passed as an rvalue
     } else if (form == "inv_memdata_obj") {
         S s{c};
         cv_cat_val(lib::invoke(&S::v, s), ret);
@@ -1369,6 +1443,7 @@ int main(int argc, char** argv)
         return 2;
     }
     std::string mode = argv[1];
+    install_fault_handlers();
     if (mode == "ipf") {
         long before = vh::live_count();
         long nev, nskip;
